@@ -116,6 +116,9 @@ fn check_value(cx: &Cx, v: &Val, only_top: bool, acc: &mut Acc) {
     acc.count("values", 1);
     acc.set("values", h64(&bytes));
     let vkey = format!("{:016x}", h64(&bytes));
+    if !only_top {
+        dt_edits(cx, v, &nodes, &bytes, &want_debug, &vkey, acc);
+    }
     for (lp, under_rep) in levels(&nodes) {
         if only_top && !lp.is_empty() {
             continue;
@@ -273,6 +276,117 @@ fn check_value(cx: &Cx, v: &Val, only_top: bool, acc: &mut Acc) {
     }
 }
 
+/// The date/time value is itself a container of two tagged parts (date 1F0E, time 1F0F) decoded by
+/// hand-written code with the same rules as the tagged fields of a struct: every sequence of up to
+/// four parts drawn from {date, time, another date, another time} replaces the payload.
+fn dt_edits(cx: &Cx, _v: &Val, nodes: &[Node], bytes: &[u8], want_debug: &str, vkey: &str, acc: &mut Acc) {
+    fn find(nodes: &[Node], path: &mut Vec<usize>, under_rep: bool, out: &mut Vec<Vec<usize>>) {
+        for (i, n) in nodes.iter().enumerate() {
+            path.push(i);
+            match &n.body {
+                Body::Leaf(_) if n.enc == Enc::Dt && !under_rep && !n.repeated => out.push(path.clone()),
+                Body::Kids(k) => find(k, path, under_rep || n.repeated, out),
+                _ => {}
+            }
+            path.pop();
+        }
+    }
+    let mut found = vec![];
+    find(nodes, &mut vec![], false, &mut found);
+    for path in found {
+        let leaf = {
+            let lvl = level(nodes, &path[..path.len() - 1]);
+            match &lvl[*path.last().unwrap()].body {
+                Body::Leaf(b) => b.clone(),
+                _ => unreachable!(),
+            }
+        };
+        // the canonical payload is 1f0e 04 YYYYMMDD 1f0f 03 HHMMSS
+        if leaf.len() != 13 || leaf[..3] != [0x1f, 0x0e, 4] || leaf[7..10] != [0x1f, 0x0f, 3] {
+            eprintln!("MACHINERY: date/time payload of {} is not in the canonical form: {}", cx.ty.key, hex(&leaf));
+            std::process::exit(EXIT_MACHINERY);
+        }
+        let d = leaf[..7].to_vec();
+        let t = leaf[7..].to_vec();
+        let mut d2 = d.clone();
+        d2[6] = if d[6] == 0x01 { 0x02 } else { 0x01 };
+        let mut t2 = t.clone();
+        t2[5] = if t[5] == 0x00 { 0x01 } else { 0x00 };
+        let parts: [(&str, u16, &Vec<u8>); 4] = [("date", 0x1f0e, &d), ("time", 0x1f0f, &t), ("date'", 0x1f0e, &d2), ("time'", 0x1f0f, &t2)];
+        let mut seqs: Vec<Vec<usize>> = vec![vec![]];
+        let mut frontier: Vec<Vec<usize>> = vec![vec![]];
+        for _ in 0..4 {
+            let mut next = vec![];
+            for s in &frontier {
+                for p in 0..4 {
+                    let mut n = s.clone();
+                    n.push(p);
+                    next.push(n);
+                }
+            }
+            seqs.extend(next.iter().cloned());
+            frontier = next;
+        }
+        for seq in seqs {
+            if seq == [0, 1] {
+                continue;
+            }
+            let mut payload = vec![];
+            for &p in &seq {
+                payload.extend_from_slice(parts[p].2);
+            }
+            let mut tr = nodes.to_vec();
+            level_mut(&mut tr, &path[..path.len() - 1])[*path.last().unwrap()].body = Body::Leaf(payload);
+            let Some(input) = render(cx.ty, &tr) else { continue };
+            // expectation by a plain scan of the sequence
+            let mut seen: Vec<u16> = vec![];
+            let mut dup = None;
+            for &p in &seq {
+                if seen.contains(&parts[p].1) {
+                    dup = Some(parts[p].1);
+                    break;
+                }
+                seen.push(parts[p].1);
+            }
+            let names: Vec<&str> = seq.iter().map(|p| parts[*p].0).collect();
+            let key = format!("c13/{}/date-time-parts={names:?}/{vkey}", cx.ty.key);
+            let describe = |what: &str, got: String| format!("type {} date/time value\nvalue    : {want_debug}\nref bytes: {}\nedit     : the parts of the date/time value are {names:?}; {what}\ninput    : {}\nreal     : {got}", cx.ty.key, hex_short(bytes), hex_short(&input));
+            let reference = cx.codec.decode(cx.ty, &input);
+            acc.count("cases", 1);
+            acc.count("calls", 1);
+            acc.count("date_time_part_sequences", 1);
+            let got = guarded(|| (cx.real.decode)(&input));
+            match (dup, seen.len()) {
+                (Some(tag), _) => {
+                    if !matches!(reference, Err(RefErr::Duplicate(x)) if x == tag) {
+                        eprintln!("MACHINERY: reference decoder disagrees with the part scan on {names:?}: {reference:?}");
+                        std::process::exit(EXIT_MACHINERY);
+                    }
+                    match got {
+                        Ok(Err(ZVTError::DuplicateTag(Tag(x)))) if x == tag => acc.count("dt_dup_reported", 1),
+                        other => acc.violation(viol(key, describe(&format!("expected Err(DuplicateTag(Tag({tag})))"), format!("{other:?}")), input.len() as u64)),
+                    }
+                }
+                (None, 2) => {
+                    let Ok((rv, used)) = &reference else {
+                        eprintln!("MACHINERY: reference decoder rejects the part sequence {names:?}: {reference:?}");
+                        std::process::exit(EXIT_MACHINERY);
+                    };
+                    let want = cx.codec.debug_string(cx.ty, rv);
+                    match got {
+                        Ok(Ok((dbg, 0, _))) if dbg == want && *used == input.len() => acc.count("dt_perm_ok", 1),
+                        other => acc.violation(viol(key, describe(&format!("expected the value {want}"), format!("{other:?}")), input.len() as u64)),
+                    }
+                }
+                (None, _) => match got {
+                    Ok(Err(_)) => acc.count("dt_missing_rejected", 1),
+                    other => acc.violation(viol(key, describe("a part is missing: expected an error", format!("{other:?}")), input.len() as u64)),
+                },
+            }
+        }
+    }
+}
+
 fn lvl_name(nodes: &[Node], lp: &[usize]) -> String {
     let mut cur = nodes;
     let mut name = String::new();
@@ -341,6 +455,9 @@ pub fn run(run: &RunInfo) -> Summary {
         ("missing mandatory tags reported", "missing_reported"),
         ("foreign tag rejected", "foreign_rejected"),
         ("foreign tag gave exactly the preceding value", "foreign_prefix_value"),
+        ("date/time parts in the other order decoded to the same value", "dt_perm_ok"),
+        ("a repeated date/time part was reported as a duplicate of its tag", "dt_dup_reported"),
+        ("a date/time value lacking a part was rejected", "dt_missing_rejected"),
     ] {
         if acc.get(c) > 0 {
             acc.witness(w);
@@ -358,8 +475,8 @@ pub fn run(run: &RunInfo) -> Summary {
         states: cases,
         transitions: acc.get("calls"),
         traces_validated: cases,
-        distinct_nontrivial: acc.get("perm_ok") + acc.get("dup_reported") + acc.get("missing_reported") + acc.get("foreign_rejected") + acc.get("foreign_prefix_value"),
-        rule: format!("55 shipped types x (all-present rows at every nesting level + every subset of <= {smax} present tagged top-level fields): all permutations of the tagged groups of a level up to {pmax} groups (adjacent transpositions, reversal, rotations above), every non-repeated group duplicated at every position, every non-empty subset of mandatory groups removed, a foreign group (one- and two-byte tag unknown to the whole type, 0..2 payload bytes) at every position. distinct_nontrivial = edited inputs on which the real decoder gave the demanded answer"),
+        distinct_nontrivial: acc.get("perm_ok") + acc.get("dup_reported") + acc.get("missing_reported") + acc.get("foreign_rejected") + acc.get("foreign_prefix_value") + acc.get("dt_perm_ok") + acc.get("dt_dup_reported") + acc.get("dt_missing_rejected"),
+        rule: format!("55 shipped types x (all-present rows at every nesting level + every subset of <= {smax} present tagged top-level fields): all permutations of the tagged groups of a level up to {pmax} groups (adjacent transpositions, reversal, rotations above), every non-repeated group duplicated at every position, every non-empty subset of mandatory groups removed, a foreign group (one- and two-byte tag unknown to the whole type, 0..2 payload bytes) at every position; inside every date/time value every sequence of 0..4 parts over (date, time, a second date, a second time). distinct_nontrivial = edited inputs on which the real decoder gave the demanded answer"),
         exhaustive: true,
         required_witnesses: vec![
             "permuted groups decoded to the same value".into(),
@@ -367,6 +484,9 @@ pub fn run(run: &RunInfo) -> Summary {
             "missing mandatory tags reported".into(),
             "foreign tag gave exactly the preceding value".into(),
             "all permutations of the maximal group count were decoded".into(),
+            "date/time parts in the other order decoded to the same value".into(),
+            "a repeated date/time part was reported as a duplicate of its tag".into(),
+            "a date/time value lacking a part was rejected".into(),
         ],
         assumptions: vec![
             "duplicates and removals inside an element of a repeated field are outside the alphabet (element boundary rule makes 'twice' ambiguous)".into(),
